@@ -1,5 +1,6 @@
 import QP.Base
 import QP.Props.C08
+import QP.Props.C11
 import QP.Props.C13
 import QP.Props.C14
 import QP.Props.C17
